@@ -66,3 +66,47 @@ func TestProtectedPointerSweep(t *testing.T) {
 	}
 	ev.Exhaustive(chkPointer)
 }
+
+const chkIndex = "array-index-sweep"
+
+func init() { ev.RegisterReplay(chkIndex, replay) }
+
+// TestArrayIndexSweep aims every RFC 6902 operation at array positions from far below to far beyond the array
+// (as path and, for move / copy, as from): whatever validation accepts must come back as a document or an error -
+// in particular nothing may be allocated for an index that no array of the document can have.
+func TestArrayIndexSweep(t *testing.T) {
+	idx := []string{"-2", "-1", "0", "1", "2", "3", "-", "00", "+1", "1000000", "1099511627776", "17592186044416", "4611686018427387904", "9223372036854775807", "9223372036854775808", "18446744073709551616"}
+	ev.Rule(chkIndex, fmt.Sprintf("deterministic sweep: 6 RFC 6902 operations x 3 arrays (top-level, nested in an array, nested in an object) x %d index spellings from -2 to beyond 2^64 (incl. 10^6, 2^40, 2^44, 2^62, 2^63-1) x {path, from} x 2 documents; oracle: a document or an error - never a panic, a hang or a fatal crash (in-flight journal); non-trivial = every case", len(idx)))
+	item := 0
+	for di, doc := range []interface{}{smallDocs[1], smallDocs[2]} {
+		for _, op := range []string{"add", "remove", "replace", "move", "copy", "test"} {
+			for _, container := range []string{"/m1", "/arr2/0", "/deep/a"} {
+				for _, i := range idx {
+					for _, role := range []string{"path", "from"} {
+						item++
+						if !ev.Mine(item) {
+							continue
+						}
+						o := map[string]interface{}{"op": op, "value": "v"}
+						if role == "path" {
+							o["path"], o["from"] = container+"/"+i, "/label"
+							if di == 1 {
+								o["from"] = "/m1"
+							}
+						} else {
+							o["from"], o["path"] = container+"/"+i, "/target"
+						}
+						c := &Case{Enabled: wire.AllPatches, Doc: deep(doc), Patches: []interface{}{map[string]interface{}{"action": "ietf-json-patch", "patches": []interface{}{o}}}}
+						kind, msg, accepted := evalCase(c)
+						ev.Record(chkIndex, true, ev.Hash(c), "op:"+op, "role:"+role, "index:"+i, fmt.Sprintf("accepted:%v", accepted))
+						ev.SampleFn(chkIndex, func() interface{} { return map[string]interface{}{"operation": o, "accepted": accepted} })
+						if kind != "" {
+							ev.Fail(t, chkIndex, kind, sigOf(kind, msg), c, "%s", msg)
+						}
+					}
+				}
+			}
+		}
+	}
+	ev.Exhaustive(chkIndex)
+}
